@@ -248,14 +248,18 @@ CHECKS = {
         "assumptions": ["Save adds/updates core data (package documentation)"],
     },
     "C18": {
-        "pkg": "life", "run": "^TestC18", "level": "exploration", "overlay": "vsched", "tags": ["verifvsched"],
+        "pkg": "life", "run": "^TestC18", "level": "exploration", "overlay": "all", "tags": ["verifvfs", "verifvsched"],
         "shards": {"quick": 16, "thorough": 16}, "timeout": {"quick": 1200, "thorough": 3000},
-        "technique": "property-based testing of concurrent summon/close/destroy/cancel programs with rapid-drawn schedule perturbation at instrumented slot sites; instance-identity history oracle",
+        "technique": "property-based testing of concurrent summon/close/destroy/cancel programs with rapid-drawn schedule perturbation at instrumented slot sites; instance-identity history oracle plus a write-handle oracle on the swamp file (vfs shim)",
         "level_text": "Goroutines summon 1-2 names through hydra.SummonSwamp while returned instances are Close()d or Destroy()ed and contexts are cancelled, under generated "
                       "pause/sleep/yield plans (a third of the cases use the hand-derived A/B/C slot shape). Every result is logged with instance identity and logical call/return "
-                      "times. Two instances of a name whose certainly-live intervals intersect, or an instance served after its close had returned, is a violation.",
+                      "times. Two instances of a name whose certainly-live intervals intersect, or an instance served after its close had returned, is a violation. "
+                      "A second facet runs the same programs on file-backed swamps where every summoner writes through its instance (before any teardown of it begins) and the "
+                      "shim keeps write handles open 0-12 ms longer on close: two write handles open on one swamp file at the same time is a violation.",
         "level_note": "Detection is probabilistic (schedules are perturbed, not enumerated); a reported violation is real. Site names carry statement indices; a stale name fails loudly (requireSites).",
-        "assumptions": ["close-after-idle 600 s: nothing but the harness closes instances", "Destroy() is never issued on a handle already Close()d"],
+        "assumptions": ["close-after-idle 600 s: nothing but the harness closes instances", "Destroy() is never issued on a handle already Close()d",
+                        "harness writes go through an instance only before its teardown begins (later ones are C16's dead-instance finding)",
+                        "write handles on a removed / renamed-over file no longer count for the path (chroniclerV2.Destroy leaks its handle on the unlinked file)"],
     },
     "C16": {
         "pkg": "life", "run": "^TestC16", "level": "exploration", "overlay": "vsched", "tags": ["verifvsched"],
